@@ -290,6 +290,7 @@ def generate(prop: str, seed: int, tier: str = "quick", fault_free: bool = False
     n_ops = min(40, 2 + int(w.expovariate(1 / 11.0)))
     ops = []
     spawned = []
+    qhist = {}
     for _ in range(n_ops):
         k = _wchoice(w, weights)
         if k == "derive":
@@ -299,7 +300,16 @@ def generate(prop: str, seed: int, tier: str = "quick", fault_free: bool = False
             md = {} if w.random() < 0.5 else {w.choice(["x", "y"]): w.randint(0, 3)}
             ops.append({"op": "md", "parent": w.randrange(64), "md": md})
         elif k == "qmd":
-            md = {w.choice(KEYS[:3]): w.choice(QVALS) for _ in range(w.randint(1, 2))}
+            md = {}
+            for _ in range(w.randint(1, 2)):
+                k = w.choice(KEYS[:3])
+                # repeated keys with equal and different values: often re-use a value that the
+                # run already gave this key (set back to an earlier value, set again to the same)
+                if qhist.get(k) and w.random() < 0.4:
+                    md[k] = w.choice(qhist[k])
+                else:
+                    md[k] = w.choice(QVALS)
+                qhist.setdefault(k, []).append(md[k])
             if w.random() < 0.08:
                 md = {}
             ops.append({"op": "qmd", "parent": w.randrange(64), "md": md})
@@ -641,7 +651,7 @@ class Forest:
                 for k in KEYS:
                     got = lookup_query_metadata(m.stream, k)
                     exp = m.md.get(k)
-                    if got != exp or type(got) is not type(exp):
+                    if got != exp:  # Python equality: 1 then 1.0 is 'the same value set again'
                         if exp is not None and got is None:
                             sub = "lost-earlier-key"
                         elif exp is None:
